@@ -14,8 +14,12 @@ Enumerated (DESIGN.md section 4, C03), reflectively:
               domain), plain, with "pre", and with a re-open between the two assignments ("mid").
               quick: pairs for the representative targets only; thorough: all targets.
   Every history ends with close + read-only re-open + raw HDF5 read.
-Oracle: mc/c03_lib.py (clauses later-reader-can-read, reader-sees-assigned,
-memory-equals-assigned, stored-equals-assigned, memory-equals-stored over ALL attributes).
+Oracle: mc/c03_lib.py - clauses later-reader-can-read, reader-sees-assigned, memory-equals-stored
+(for ALL attributes of the entity, not only the assigned one), stored-equals-assigned (raw HDF5);
+per assigned attribute the first failing clause is reported; a two-assignment history reports
+only what neither assignment shows on its own (witness suffix "|pair-only").
+Witness = class that defines the setter + stored field (+ @kind for setters inherited from
+Entity / EntityType, + [concatenated] / [concatenator] storage path, + "=None").
 """
 
 from __future__ import annotations
